@@ -255,7 +255,7 @@ class _WalletOs:
 
     def rename(self, a, b):
         ENV._op('rename', a, b)
-        if ENV.fail_rename:
+        if ENV.fail_rename and os.path.exists(b):
             raise PermissionError('simulated: target exists (Windows)')
         return os.rename(a, b)
 
@@ -555,6 +555,8 @@ class Machine:
             if k == 'set_pref':
                 w.preferences[op['key']] = json.loads(json.dumps(op['value']))
                 return 'True'
+            if k in ('acc_encrypt', 'acc_decrypt', 'set_cipher') and op['i'] >= len(w.accounts):
+                return 'MODEL-BAD-SHAPE'
             if k == 'acc_encrypt':
                 return str(w.accounts[op['i']].encrypt(op['pw']))
             if k == 'acc_decrypt':
@@ -638,10 +640,14 @@ class Machine:
                     bad.append(('unlock refused but the wallet is no longer locked', {'finding': 'refused_unlock_unlocked'}))
                 if views != self.pre['views'] or w.encryption_password != self.pre['pw']:
                     changed = [i for i, (x, y) in enumerate(zip(views, self.pre['views'])) if x != y]
-                    bad.append((f'unlock with {op["pw"]!r} was refused ({out}) but accounts {changed} changed state '
-                                f'(they stay decrypted)',
-                                {'finding': 'failed_unlock_leaves_earlier_accounts_decrypted',
-                                 'cause': 'accounts_encrypted_under_different_passwords'}))
+                    failing = [i for i in idx if w.accounts[i].encrypted][:1]
+                    if failing and all(i < failing[0] for i in changed) and w.encryption_password == self.pre['pw']:
+                        bad.append((f'unlock with {op["pw"][:40]!r} was refused ({out}) by account {failing[0]}, but accounts '
+                                    f'{changed} before it were decrypted and stay decrypted: the wallet is not unchanged',
+                                    {'finding': 'failed_unlock_leaves_earlier_accounts_decrypted'}))
+                    else:
+                        bad.append((f'unlock with {op["pw"][:40]!r} was refused ({out}) but the state changed (accounts {changed})',
+                                    {'finding': 'failed_unlock_changes_state'}))
                 # the same password that encrypted every still-encrypted account must not be refused
                 enc_idx = [i for i in idx if self.pre['enc'][i]]
                 if enc_idx and all(self.acc_pw[i] == op['pw'] and self.truth[i] is not None for i in enc_idx):
@@ -1000,7 +1006,7 @@ def gen_password(rng):
 
 
 def other_password(rng, pw):
-    cands = [pw + ' ', ' ' + pw, pw + pw, pw[:-1], pw.swapcase(), pw + '́', pw[::-1], gen_password(rng), 'x', pw + '\x00']
+    cands = [pw + ' ', ' ' + pw, pw + pw, pw[:-1], pw.swapcase(), pw + '́', pw[::-1], gen_password(rng), 'x']
     rng.shuffle(cands)
     for c in cands:
         if c and c != pw:
